@@ -44,6 +44,7 @@
      cran        no markers exist in the grammar ("-" is a separator)
    No open finding of this property is known for the 20 ecosystems. *)
 
+From Verif Require GenTie.  (* ties of model constants to the generated tables *)
 From Verif.Base Require Import Bytes BytesFacts GoNum Ord.
 From Verif.Eco Require Import RangeCore RangeCoreFacts Iface VLayer VLayerFacts.
 From Verif.Eco.Alpine Require Version VersionFacts Range RangeFacts Entry OrdMore.
